@@ -452,8 +452,13 @@ namespace DFS
 
 	// The "file system" of the other side may not be valid, so
 	// this filter has some false negatives.  Therefore, only use
-	// it if we would otherwise not be able to guess the format.
-	possible = filter_formats(possible, other_side_has_catalog_too);
+	// it if we would otherwise not be able to guess the format,
+	// and do not let it eliminate every remaining geometry (the
+	// second side of a two-sided image may simply be unformatted).
+	const std::vector<DFS::ImageFileFormat> with_other_side =
+	  filter_formats(possible, other_side_has_catalog_too);
+	if (!with_other_side.empty())
+	  possible = with_other_side;
 	show_possible("probe_geometry after removing two-sided geometries lacking a catalog on the other side",
 		      possible);
       }
